@@ -301,6 +301,13 @@ func (ps *PairShuffle) Verify(
 			Q.Add(p1.W[i], p3.D[i])) {
 			return errors.New("invalid PairShuffleProof")
 		}
+		// The embedded simple shuffle of step 6 must be over the pairs
+		// (R_i, S_i) = (A_i + lambda*B_i, C_i + lambda*D_i) of this transcript,
+		// not over vectors chosen freely by the prover.
+		if !P.Add(p1.A[i], Q.Mul(v4.Zlambda, B[i])).Equal(ps.pv6.p0.X[i]) ||
+			!P.Add(p1.C[i], Q.Mul(v4.Zlambda, p3.D[i])).Equal(ps.pv6.p0.Y[i]) {
+			return errors.New("invalid PairShuffleProof")
+		}
 	}
 
 	if !P.Add(p1.Lambda1, Q.Mul(p5.Ztau, G)).Equal(Phi1) || // (34)
